@@ -789,11 +789,11 @@ pub fn run(ctx: &Ctx) -> Rec {
   let r2 = par_run(ctx, "refused", ctx.n(600, 20_000), |rec, i, rng| refused_secrets(rec, ctx, i, rng));
   rec.merge(r2);
   rec.merge(par_run(ctx, "mixed-degree", ctx.n(400, 20_000), |rec, i, rng| mixed_degree_evaluator(rec, ctx, i, rng)));
-  // every threshold 1..=T once (O(t^2) inversions each): 320 quick, 1400 thorough
-  let tmax: u64 = (((if ctx.thorough() { 1400 } else { 320 }) as f64) * ctx.scale.min(1.0)).ceil() as u64;
+  // every threshold 1..=T once (O(t^2) inversions each): 320 quick, 1024 thorough
+  let tmax: u64 = (((if ctx.thorough() { 1024 } else { 320 }) as f64) * ctx.scale.min(1.0)).ceil() as u64;
   rec.merge(par_run(ctx, "threshold-sweep", tmax, |rec, i, rng| threshold_sweep(rec, ctx, tmax - 1 - i, rng)));
   rec.note("threshold_sweep_max", json!(tmax));
-  rec.merge(par_run(ctx, "long-iterator", ctx.n(4, 32), |rec, i, rng| long_iterator(rec, ctx, i, rng)));
+  rec.merge(par_run(ctx, "long-iterator", ctx.n(4, 8), |rec, i, rng| long_iterator(rec, ctx, i, rng)));
   let seen = std::sync::Mutex::new(HashSet::new());
   rec.merge(par_run(ctx, "std-dealer", ctx.n(1500, 60_000), |rec, i, rng| std_dealer(rec, ctx, i, rng, &seen)));
   rec
